@@ -364,6 +364,51 @@ pub fn annots() -> DocSpec {
     finish_classic(b, catalog)
 }
 
+/// name tree and number tree that are DAGs: 20 levels, every node lists its only child four times
+/// (a walk that only guards the current path visits 4^20 nodes)
+pub fn dag_trees() -> DocSpec {
+    let mut b = Builder::new();
+    let depth = 20;
+    let mut roots = vec![];
+    for number_tree in [false, true] {
+        let nodes: Vec<u32> = (0..depth).map(|_| b.reserve()).collect();
+        let leaf = if number_tree {
+            b.add(Val::dict(vec![("Nums", Val::Arr(vec![Val::Int(0), Val::dict(vec![("S", Val::name("D"))])]))]))
+        } else {
+            b.add(Val::dict(vec![("Names", Val::Arr(vec![Val::Str(b"a".to_vec()), Val::Arr(vec![Val::r(3), Val::name("Fit")])]))]))
+        };
+        for i in 0..depth {
+            let next = if i + 1 < depth { nodes[i + 1] } else { leaf };
+            b.put(nodes[i], Val::dict(vec![("Kids", Val::Arr(vec![Val::r(next); 4]))]));
+        }
+        roots.push(nodes[0]);
+    }
+    let names = b.add(Val::dict(vec![("Dests", Val::r(roots[0]))]));
+    let catalog = base(&mut b, vec![("Names", Val::r(names)), ("PageLabels", Val::r(roots[1]))], Val::dict(vec![]), None);
+    finish_classic(b, catalog)
+}
+
+/// a long chain of eagerly loaded references without any cycle: a page whose /Parent chain is 3000
+/// nodes long (typed loading nests once per link)
+pub fn long_chain() -> DocSpec {
+    let mut b = Builder::new();
+    let catalog = b.reserve();
+    let leaf = b.reserve();
+    let n = 3000;
+    let nodes: Vec<u32> = (0..n).map(|_| b.reserve()).collect();
+    b.put(leaf, Val::dict(vec![("Type", Val::name("Page")), ("Parent", Val::r(nodes[n - 1])), ("MediaBox", rect(0, 0, 10, 10)), ("Resources", Val::dict(vec![]))]));
+    for i in 0..n {
+        let kid = if i + 1 < n { nodes[i + 1] } else { leaf };
+        let mut d = vec![("Type", Val::name("Pages")), ("Kids", Val::Arr(vec![Val::r(kid)])), ("Count", Val::Int(1))];
+        if i > 0 {
+            d.push(("Parent", Val::r(nodes[i - 1])));
+        }
+        b.put(nodes[i], Val::dict(d));
+    }
+    b.put(catalog, Val::dict(vec![("Type", Val::name("Catalog")), ("Pages", Val::r(nodes[0]))]));
+    finish_classic(b, catalog)
+}
+
 pub fn rich_all() -> DocSpec {
     let mut rng = Rng::new(7);
     families::rich(&mut rng, &families::RichOpts::all(), &Layout::classic())
@@ -383,6 +428,8 @@ pub fn all() -> Vec<(&'static str, DocSpec)> {
         ("encrypt_v4", encrypt_v4()),
         ("dag_pages", dag_pages()),
         ("annots", annots()),
+        ("dag_trees", dag_trees()),
+        ("long_chain", long_chain()),
         ("rich", rich_all()),
     ]
 }
